@@ -20,7 +20,7 @@
                                                                     -- CcPost   -> CcDone (CcAccepted ev)
                                                                        (cc_ev_reread = true: the state type is LOADED AGAIN here)
 
-   Parameters (cc_cfg):
+   Switches (cc_cfg):
      cc_lock_first  true  = the lock is taken before the snapshot (the tree as it is);
                     false = the snapshot and the stale test are made unlocked, the lock is taken only for the writes
                             (the seeded shape C01d): CcStart -> CcRead -> CcHave -> CcWantW -> CcWrite
